@@ -104,7 +104,7 @@ func VN_C14_ATOMS(tier int) int { return vNumBoolAtoms() }
 // VH_C14_OK(a, b, conn): statement built from well-typed atoms a (and b when conn > 0):
 // conn 0: atom a alone; 1: a & b; 2: a | b; 3: !(a); 4: a as WHERE with b's left operand selected.
 func VH_C14_OK(a, b, conn, n int) {
-	A := vBoolAtom(a)
+	A := vBoolAtom(a % vNumBoolAtoms())
 	if vSameFieldTwice(A) {
 		return
 	}
